@@ -262,11 +262,11 @@ pub fn hist_spec(id: &str, tier: &str) -> Option<(HistSpec, Info)> {
 pub fn regression_replays(id: &str) -> Vec<String> {
     let known: Vec<String> = load_known().into_iter().filter(|k| k.status == "known").filter_map(|k| k.replay).collect();
     let mut v: Vec<String> = Vec::new();
-    if let Ok(rd) = std::fs::read_dir(format!("{VERIF}/replays")) {
+    if let Ok(rd) = std::fs::read_dir(format!("{}/replays", crate::engine::verif_root())) {
         for e in rd.flatten() {
             let name = e.file_name().to_string_lossy().to_string();
             if name.starts_with(&format!("{id}-")) && name.ends_with(".json") && !known.iter().any(|k| k.ends_with(&name)) {
-                v.push(format!("{VERIF}/replays/{name}"));
+                v.push(format!("{}/replays/{name}", crate::engine::verif_root()));
             }
         }
     }
